@@ -75,6 +75,9 @@ func (gsd *Demux) Run() {
 		case conn.r <- rpc:
 		case <-conn.done:
 			// Cancelled since the lookup: nobody is left to read this RPC.
+		case <-gsd.ctx.Done():
+			// Stopped while nobody was reading the logical connection.
+			return
 		}
 	}
 }
